@@ -37,6 +37,11 @@ def alphabet():
 
 ALPHA = alphabet()
 NA = len(ALPHA)
+# the same (required, name) registered for related provided interfaces, in either registry: lookupAll/names vs lookup
+PAIRS = [('register', 0, (1,), 0, 'n', 'a0'), ('register', 0, (1,), 1, 'n', 'a1'), ('register', 0, (1,), 3, 'n', 'a3'),
+         ('register', 1, (1,), 0, 'n', 'b0'), ('register', 1, (1,), 1, 'n', 'b1'), ('register', 0, (2,), 1, 'n', 'c1'),
+         ('register', 0, (1,), 1, '', 'd1'), ('register', 0, (1,), 0, '', 'd0'), ('register', 0, (1,), 2, 'n', 'a2'),
+         ('register', 1, (2,), 3, '', 'e3')]
 EPS = ['none', 'lookup', 'lookup+default', 'lookup1+default', 'adapter_hook+default', 'queryAdapter', 'queryMultiAdapter+default',
        'lookupAll', 'subscriptions']
 NEP = len(EPS)
@@ -246,6 +251,9 @@ def run_state(flavour, ops, e1, e2):
 def make_e(params, part, nparts):
     L = params['L']
     flavour = params.get('flavour', 'adapter')
+    ALPHA = PAIRS if params.get('pairs') else globals()['ALPHA']
+    NA = len(ALPHA)
+    NE2 = 1 if params.get('pairs') else NEP
 
     def h(n: int, o1: int, o2: int, o3: int, w1: int, w2: int):
         ln = pick(n, L + 1)
@@ -261,7 +269,7 @@ def make_e(params, part, nparts):
         else:
             assume(part == 0)
         e1 = pick(w1, NEP)
-        e2 = pick(w2, NEP)
+        e2 = pick(w2, NE2)
         ops = tuple(ALPHA[i] for i in idx)
         reached((tuple(idx), e1, e2), dict(flavour=flavour, state=RP.fmt(ops), warmup=[EPS[e1], EPS[e2]]))
         native(run_state, flavour, ops, e1, e2)
@@ -294,6 +302,13 @@ HARNESSES = [
             tiers=dict(quick=dict(budget_s=150, parts=14, params=dict(L=1, flavour='verifying'), impls=('c',)),
                        thorough=dict(budget_s=3000, parts=14, params=dict(L=2, flavour='verifying'))),
             encoded=_ENC, bounds='as e_entry_adapter for VerifyingAdapterRegistry', oracle='as e_entry_adapter'),
+    Harness('e_entry_pairs', make_e, kind='E', impls=('py', 'c'),
+            tiers=dict(quick=dict(budget_s=150, parts=10, params=dict(L=3, pairs=True)),
+                       thorough=dict(budget_s=3000, parts=10, params=dict(L=4, pairs=True))),
+            encoded=_ENC,
+            bounds='every set of <=3 (thorough 4) registrations from 10 that share a required key and a name across related provided interfaces '
+                   '(P0, P1(P0), P2(P0), P3(P1,P2)) and both registries x 9 warm-up entry points; same keys and checks as e_entry_adapter',
+            oracle='as e_entry_adapter (in particular dict(lookupAll) == {name: lookup(name)} when several provided interfaces carry the same name)'),
 ]
 
 MANIFEST = {
